@@ -213,8 +213,8 @@ def run(ctx):
                          f'{blit(cls.__name__.encode())} {blit(emsarray.__version__.encode())})')
             plans.append((case, got))
             if got != py_stream(ds, names):
-                ctx.report('property', 'the hashed bytes are not the documented function of the geometry variables and the convention',
-                           case)
+                ctx.report('correspondence', 'the hashed bytes are not the documented function of the geometry variables and the '
+                           'convention (model of the stream no longer matches the code)', case, found_input=False)
                 continue
             base_canon = canonical_stream(ds, names)
             base_stream = got
@@ -247,9 +247,10 @@ def run(ctx):
                     ctx.report('property', f'"{ename}" changes what is hashed although no geometry variable changed', ecase)
                     continue
                 s2 = stream_of(ds2)
-                if s2 != py_stream(ds2, names):
-                    ctx.report('property', f'after "{ename}" the hashed bytes are not the documented function of the geometry '
-                               f'variables (name, dtype, size, shape, C-order values, attributes) and the convention', ecase)
+                if s2 != base_stream and s2 != py_stream(ds2, names):
+                    ctx.report('property', f'"{ename}" leaves every geometry variable and attribute equal but the hashed bytes (and '
+                               f'the key) differ, and they are no longer the documented function of the geometry variables (name, '
+                               f'dtype, size, shape, C-order values, attributes) and the convention', ecase)
                 elif s2 != base_stream:
                     # same names, dtypes, shapes, values and attributes - yet other bytes: only the marshal encoding of
                     # the attribute dictionaries (reference flags / interning) can differ
@@ -308,6 +309,27 @@ def run(ctx):
                 del x[gname].attrs[k[0]]
                 return x
             edits.append(('attribute removed', e_attr_remove))
+            # attributes by name: packing / missing-data attributes (which xarray moves between attrs and encoding depending on
+            # how the file was opened), CF / UGRID role attributes, and free text - on any geometry variable
+            special = ['_FillValue', 'missing_value', 'scale_factor', 'add_offset', 'units', 'standard_name', 'axis', 'bounds',
+                       'start_index', 'cf_role', 'coordinates', 'valid_min', 'valid_range', 'positive', 'history', 'Conventions']
+            gvars = [str(x) for x in names]
+            for aname in (rng.sample(special, 5) if quick else special):
+                target = rng.choice(gvars)
+
+                def e_named(x, aname=aname, target=target):
+                    x = x.copy(deep=True)
+                    old = x[target].attrs.get(aname)
+                    if isinstance(old, str) or (old is None and aname in ('units', 'standard_name', 'axis', 'bounds', 'cf_role',
+                                                                          'coordinates', 'positive', 'history', 'Conventions')):
+                        new = 'other' if old != 'other' else 'another'
+                    elif aname == 'valid_range':
+                        new = numpy.array([-7.0, 7.5]) if old is None else numpy.asarray(old) + 1
+                    else:
+                        new = (numpy.asarray(old) + 1).astype(numpy.asarray(old).dtype)[()] if old is not None else numpy.float64(3.5)
+                    x[target].attrs[aname] = new
+                    return x
+                edits.append((f'attribute {aname} set on {target}', e_named))
             if d.family in ('cf2d',) and d.spec['ny'] != d.spec['nx'] and not d.spec.get('bounds'):
                 def e_shape(x):
                     # the same bytes under the transposed shape
@@ -331,11 +353,12 @@ def run(ctx):
                     s2 = attempt(stream_of, e[1])
                 ecase = dict(case, edit=ename, variable=gname, kind='geometry_edit')
                 ctx.case((label, from_file, ename), True)
-                ctx.count(f'edit:{ename}')
+                ctx.count('edit:' + (ename.split(' on ')[0] if ename.startswith('attribute ') and ' set on ' in ename else ename))
                 if s2[0] != 'ok':
                     continue
                 if s2[1] == base_stream:
-                    ctx.report('property', f'"{ename}" of geometry variable {gname} does not change what is hashed: same key', ecase)
+                    ctx.report('property', f'"{ename}"' + ('' if ' set on ' in ename else f' of geometry variable {gname}')
+                               + ' does not change what is hashed: same key', ecase)
             # a value edit below single precision on a variable that still carries a float32 on-disk dtype in its
             # encoding (file stored as float32, double precision values assigned back by the application)
             def with_f32_encoding(x, delta):
@@ -367,8 +390,8 @@ def run(ctx):
                             ctx.report('property', f'{gname} changed by 2^-30 (double precision values, float32 dtype in the '
                                        f'encoding) and the hashed bytes are the same: same key', ecase)
                         elif sa[1] != py_stream(ea[1], names):
-                            ctx.report('property', 'with a float32 dtype in the encoding the hashed bytes are not the documented '
-                                       'function of the geometry variables', ecase)
+                            ctx.report('correspondence', 'with a float32 dtype in the encoding the hashed bytes are not the '
+                                       'documented function of the geometry variables', ecase, found_input=False)
             # the convention
             base_cls = type(ds.ems)
             sub = type('Sub' + base_cls.__name__, (base_cls,), {})
